@@ -559,12 +559,33 @@ def seed_case(ctx, G, M, tmp, tag, n_sim, np_seed, grow_to=None):
     return seeds, gen
 
 
-def scenario_case(ctx, G, tmp, tag, seeds, preseed, np_seed, n_days=60, pre_enabled=True):
+INJ = {"nondegenerate_pairs_with_different_seeds": 0, "of_which_different_scenarios": 0,
+       "degenerate_pairs_with_different_seeds": 0, "of_which_identical_scenarios": 0}
+
+
+def scenario_case(ctx, G, tmp, tag, seeds, preseed, np_seed, n_days=60, pre_enabled=True, specs=None):
+    """specs=None: the non-degenerate configuration SPECS (judged).  A degenerate configuration (production
+    rate 0: every seed gives the empty scenario) is run only to MEASURE how the injectivity assumption of
+    distinct_scenarios_partial / extension_distinct fails there; it is counted, not judged."""
+    degenerate = specs is not None
     gd = os.path.join(tmp, f"scen_{tag}")
     os.makedirs(gd)
-    fps = G.run_initialize_emissions(len(seeds), preseed, seeds, gd, SPECS, RATES, n_days, pre_enabled, np_seed)
+    fps = G.run_initialize_emissions(len(seeds), preseed, seeds, gd, specs or SPECS, RATES, n_days, pre_enabled, np_seed)
     inp = {"kind": "scenario-case", "seeds": seeds if len(seeds) <= 12 else None, "n_sim": len(seeds),
            "preseed": preseed, "np_seed": np_seed, "n_days": n_days}
+    if preseed and len(seeds) <= 60:
+        for a in range(len(seeds)):
+            for b in range(a + 1, len(seeds)):
+                if seeds[a] != seeds[b]:
+                    if degenerate:
+                        INJ["degenerate_pairs_with_different_seeds"] += 1
+                        INJ["of_which_identical_scenarios"] += int(fps[a] == fps[b])
+                    else:
+                        INJ["nondegenerate_pairs_with_different_seeds"] += 1
+                        INJ["of_which_different_scenarios"] += int(fps[a] != fps[b])
+    if degenerate:
+        ctx.count("scenarios:degenerate-configuration(not judged)")
+        return fps
     seen = {}
     for i, fp in enumerate(fps):
         ctx.evaluations += 1
@@ -598,7 +619,11 @@ def run_seeds(ctx, G, M, tmp):
     # without pre-seeding nothing re-seeds the generator between simulations
     for k in range(ctx.pick(3, 20)):
         scenario_case(ctx, G, tmp, f"n{k}", [0] * rng.randint(2, 12), False, rng.randrange(2 ** 31))
-    # degenerate configuration for the record (not judged): production rate 0 gives equal, empty scenarios
+    # degenerate configurations (production rate 0): measured against the injectivity assumption, not judged
+    for k in range(ctx.pick(3, 12)):
+        scenario_case(ctx, G, tmp, f"d{k}", rng.sample(range(255), rng.randint(2, 8)), True, rng.randrange(2 ** 31),
+                      specs=[(5, False, 0.0), (3, True, 0.0)])
+    ctx.extra["injectivity_assumption"] = dict(INJ)
 
 
 
@@ -801,7 +826,10 @@ def setup(ctx):
         raise core.InfraError(f"extractor: {e}")
     fps["unit_converter.gas_convert(body)"] = u["fingerprint"]
     fps["preseed.gen_seed_emis"] = s["fingerprint"]
+    fps["initialize_emissions.initialize_emissions"] = s["index"]["fingerprint"]
     ctx.extra["extracted"] = {"regenerated_files": changed, "fingerprints": fps, "seed_range": [s["low"], s["high"]],
+                              "seed_index": {"fresh_loop": s["index"]["fresh"]["index_src"],
+                                             "extension_loop": s["index"]["extend"]["index_src"]},
                               "seconds_per_year": str(u["tables"]["increments"].get("second"))}
     drift = sorted(k for k, v in fps.items() if FINGERPRINTS.get(k) != v)
     if drift:
@@ -815,6 +843,7 @@ def setup(ctx):
 FINGERPRINTS = {
     "unit_converter.gas_convert(body)": "83b77d8bfcfda6e5",
     "preseed.gen_seed_emis": "d82b330d7d58044e",
+    "initialize_emissions.initialize_emissions": "0db423934c7d1584",
     "sources.Source.generate_emissions": "80d6dd6e4ca5ee7a",
     "emissions_source_processing.EmissionsSource.unit_conversion": "ef375a8e15527598",
     "emissions_source_processing.EmissionsSourceSample": "369d58f8a0f3fcf0",
